@@ -54,6 +54,8 @@ class C17(Check):
     ANCHORS = ['rxsci/data/codec.py']
     REQUIRED_TAGS = ENCODINGS + ['cut-in-char', 'empties', 'empty-string', 'astral', 'empty-list']
 
+    _ops = {}
+
     def _mk(self, enc, strs, cuts, empties=False):
         return {'encoding': enc, 'strs': list(strs), 'cuts': list(cuts), 'empties': empties}
 
@@ -79,6 +81,7 @@ class C17(Check):
                     for cuts in chunking.all_cut_sets(ln):
                         yield self._mk(enc, strs, cuts)
                     yield self._mk(enc, strs, tuple(range(1, ln)), empties=True)
+        self.box_done = 1
 
     def _rand_strs(self, rng, enc):
         kinds = ['ascii', 'latin'] if enc == 'latin-1' else list(ALPHA)
@@ -124,7 +127,12 @@ class C17(Check):
         if any(ord(c) > 0xffff for c in text):
             out.tags.append('astral')
 
-        e = subscribe(rx.from_(strs).pipe(rs.data.encode(enc)), Snap())
+        # operator objects are built once per encoding and re-subscribed for every case: codec state must
+        # belong to the subscription, not to the operator (BOM written once PER STREAM, no bytes carried over)
+        if enc not in self._ops:
+            self._ops[enc] = (rs.data.encode(enc), rs.data.decode(enc))
+        enc_op, dec_op = self._ops[enc]
+        e = subscribe(rx.from_(strs).pipe(enc_op), Snap())
         if e.err is not None or not e.done:
             return out.fail('encode-failed', error=repr(e.err), done=e.done)
         if not all(isinstance(x, bytes) for x in e.out):
@@ -139,6 +147,21 @@ class C17(Check):
         if oneshot != text:
             return out.fail('encoded-bytes-mean-something-else', want=text, got=oneshot, blob=blob)
 
+        # the byte-order mark is written exactly once per stream: present for a non-empty utf-16/32 text
+        # (a second one would have surfaced above as U+FEFF)
+        if enc in ('utf-16', 'utf-32') and text:
+            import codecs
+            boms = (codecs.BOM_UTF16_LE, codecs.BOM_UTF16_BE) if enc == 'utf-16' else (codecs.BOM_UTF32_LE, codecs.BOM_UTF32_BE)
+            out.observed['bom_checks'] += 1
+            if not blob.startswith(boms):
+                return out.fail('byte-order-mark-missing', encoding=enc, head=blob[:8])
+        # the decoder is also fed bytes it did not produce itself (stdlib one-shot encoding, cut the same way)
+        ref = text.encode(enc)
+        rcuts = [c for c in case['cuts'] if 0 < c < len(ref)]
+        dr = subscribe(rx.from_(chunking.cut(ref, rcuts)).pipe(dec_op), Snap())
+        if dr.err is not None or not dr.done or ''.join(dr.out) != text:
+            return out.fail('decode-of-stdlib-encoded-bytes-differs', error=repr(dr.err), want=text, got=''.join(x for x in dr.out if isinstance(x, str)),
+                            chunks=chunking.cut(ref, rcuts))
         cuts = [c for c in case['cuts'] if 0 < c < len(blob)]
         chunks = chunking.cut(blob, cuts)
         if case['empties']:
@@ -149,7 +172,7 @@ class C17(Check):
             out.nontrivial = True
             out.tags.append('cut-in-char')
 
-        d = subscribe(rx.from_(chunks).pipe(rs.data.decode(enc)), Snap())
+        d = subscribe(rx.from_(chunks).pipe(dec_op), Snap())
         out.observed['chunks_decoded'] += len(chunks)
         if d.err is not None:
             return out.fail('decode-error', error=repr(d.err), chunks=chunks)
@@ -161,6 +184,11 @@ class C17(Check):
         if got != text:
             return out.fail('decode-mismatch', want=text, got=got, chunks=chunks)
         return out
+
+    box_done = 0
+
+    def extra_evidence(self):
+        return {'shards_that_enumerated_their_part_of_the_box_completely': self.box_done}
 
     def shrink(self, case):
         for k in range(len(case['strs'])):
